@@ -282,3 +282,59 @@ theorem C02_adjacencyMatrix (g : G L) (hg : UInv g) (twice : Bool) :
 example : (uGetAdjacencyMatrix (uRun (G.new false 3 : G Nat) [.addEdge 0 1 0, .addEdge 2 2 0]) true) = .ok [[0, 1, 0], [1, 0, 0], [0, 0, 2]] := by decide
 
 end BGV
+
+namespace BGV
+open G
+variable {L : Type} [Inhabited L]
+
+theorem foldl_bump (n : Nat) (es : List Edge) (hes : ∀ e ∈ es, e.2 < n) (acc : List Nat) (hacc : acc.length = n) :
+    (es.foldl (fun acc e => bump acc e.2 1) acc).length = n ∧
+    ∀ v, (es.foldl (fun acc e => bump acc e.2 1) acc).getD v 0 = acc.getD v 0 + (es.filter (fun e => e.2 == v)).length := by
+  induction es generalizing acc with
+  | nil => exact ⟨hacc, fun v => by simp⟩
+  | cons e es ih =>
+    have he := hes e (by simp)
+    have hlen : (bump acc e.2 1).length = n := by simp [bump, hacc]
+    obtain ⟨i1, i2⟩ := ih (fun x hx => hes x (by simp [hx])) _ hlen
+    refine ⟨i1, ?_⟩
+    intro v
+    simp only [List.foldl_cons]
+    rw [i2, bump, getD_modify_nat]
+    by_cases hv : e.2 = v
+    · subst hv
+      simp [List.filter_cons, hacc, he]; omega
+    · have : (e.2 == v) = false := by simpa using hv
+      simp [List.filter_cons, this, hv]
+
+/-- **C01: getInDegrees / getOutDegrees.** one entry per vertex, equal to `getInDegree(v)` /
+`getOutDegree(v)` -/
+theorem C01_degree_vectors (g : G L) (hg : Inv g) :
+    (∃ l, g.dGetInDegrees = .ok l ∧ l.length = g.size ∧ ∀ v, v < g.size → g.dGetInDegree v = .ok (l.getD v 0)) ∧
+    (g.dGetOutDegrees.length = g.size ∧ ∀ v, v < g.size → g.dGetOutDegree v = .ok (g.dGetOutDegrees.getD v 0)) := by
+  have hall := allInR_of_inv g hg
+  constructor
+  · have hes : ∀ e ∈ g.dEdges, e.2 < g.size := by
+      intro e he; rw [dEdges_eq g hg.len] at he
+      exact (hg.hasEdgeRaw_lt ((mem_edgeSeq_iff g hg e).1 he)).2
+    obtain ⟨h1, h2⟩ := foldl_bump g.size g.dEdges hes (List.replicate g.size 0) (by simp)
+    refine ⟨_, by simp only [dGetInDegrees, hall, if_true], h1, ?_⟩
+    intro v hv
+    rw [h2]
+    simp only [dGetInDegree, inR, hv, decide_true, if_true]
+    congr 1
+    simp [List.getD_eq_getElem?_getD, hv]
+  · refine ⟨by simp [dGetOutDegrees], ?_⟩
+    intro v hv
+    simp [dGetOutDegree, inR, hv, dGetOutDegrees, List.getD_eq_getElem?_getD]
+
+/-- **C02: getDegrees.** entry `v` is `getDegree(v)` -/
+theorem C02_degrees (g : G L) (twice : Bool) :
+    (g.uGetDegrees twice).length = g.size ∧
+    ∀ v, v < g.size → g.uGetDegree v twice = .ok ((g.uGetDegrees twice).getD v 0) := by
+  refine ⟨by simp [uGetDegrees], ?_⟩
+  intro v hv
+  simp only [uGetDegree, inR, hv, decide_true, Bool.not_true, Bool.false_eq_true, if_false, uGetDegrees,
+    List.getD_eq_getElem?_getD, List.getElem?_map, List.getElem?_range hv, Option.map_some, Option.getD_some]
+  cases twice <;> simp
+
+end BGV
